@@ -2,11 +2,16 @@
 // message says.  Operands live in exact-size heap blocks, so ASan sees any read outside the operands' own bytes.
 //   failmsg <script.tsv> <log.ndjson>
 // script lines: kind<TAB>expected-hex<TAB>actual-hex   ("-" = NULL pointer, "" = empty) ; `reset` is echoed
-// kinds: streq | nocase | checkeq | bineq
+// kinds: streq | nocase | checkeq | bineq | equals (EqualsFailure, C strings) | contains (ContainsFailure: expected = needle, actual = haystack)
+//        exception (UnexpectedExceptionFailure, expected = the what() text) | unsupported (FeatureUnsupportedFailure, expected = feature name)
+// Logged texts (operands, fields) are run-length encoded: [[symbol code, count], ...].
+// Fields "f" of a message = the pieces it delimits: between '<' and '>' (no bracket inside); for bineq a piece that is a hex dump
+// ("61 0A ...") is logged as the bytes it denotes; exception: the text after the first ": "; unsupported: the pieces between double quotes.
 //   bitseq<TAB>expected<TAB>actual<TAB>mask<TAB>width   BitsEqualFailure; the three operands are 16 hex digits (the 8 bytes of an
 //       unsigned long, most significant first), width = the byte count BITS_EQUAL passes (sizeof(actual), 1..8).  Logged: the two
 //       operand fields of the message as symbol sequences (0, 1, 2 = any other character; blanks dropped).
 #include "vh.h"
+#include <stdexcept>
 #include "CppUTest/TestHarness.h"
 #include "CppUTest/TestFailure.h"
 
@@ -23,10 +28,58 @@ static int code_of(unsigned char c)
     switch (c) { case 'a': return 1; case 'A': return 2; case 'b': return 3; case '\\': return 4; case 'n': return 5;
                  case '\n': return 6; case 1: return 7; case 'x': return 8; case 'y': return 9; default: return 100 + c; }
 }
-static std::string codes(const std::string& s)
+static std::string codes(const std::string& s)      // run-length encoded
 {
-    std::string o = "["; char b[16];
-    for (size_t i = 0; i < s.size(); i++) { snprintf(b, sizeof b, "%s%d", i ? "," : "", code_of((unsigned char) s[i])); o += b; }
+    std::string o = "["; char b[48];
+    for (size_t i = 0; i < s.size(); ) {
+        size_t j = i;
+        while (j < s.size() && s[j] == s[i]) j++;
+        snprintf(b, sizeof b, "%s[%d,%lu]", i ? "," : "", code_of((unsigned char) s[i]), (unsigned long) (j - i));
+        o += b;
+        i = j;
+    }
+    return o + "]";
+}
+static int hexval(char c)
+{
+    if (c >= '0' && c <= '9') return c - '0';
+    if (c >= 'a' && c <= 'f') return c - 'a' + 10;
+    if (c >= 'A' && c <= 'F') return c - 'A' + 10;
+    return -1;
+}
+// "HH HH ... HH" -> the bytes; false when the piece is not a hex dump
+static bool hexdump_bytes(const std::string& piece, std::string& bytes)
+{
+    bytes.clear();
+    if (piece.empty() || piece.size() % 3 != 2) return false;
+    for (size_t i = 0; i < piece.size(); i += 3) {
+        int h = hexval(piece[i]), l = hexval(piece[i + 1]);
+        if (h < 0 || l < 0 || (i + 2 < piece.size() && piece[i + 2] != ' ')) return false;
+        bytes += (char) (h * 16 + l);
+    }
+    return true;
+}
+// the pieces of msg between `open` and the next `close` that have neither inside
+static void delimited(const std::string& msg, char open, char close, std::vector<std::string>& out)
+{
+    size_t start = std::string::npos;
+    for (size_t i = 0; i < msg.size(); i++) {
+        if (start != std::string::npos && msg[i] == close) { out.push_back(msg.substr(start, i - start)); start = std::string::npos; }
+        else if (msg[i] == open) start = i + 1;
+    }
+}
+static std::string fields_json(const std::string& kind, const std::string& msg)
+{
+    std::vector<std::string> pieces;
+    if (kind == "exception") { size_t p = msg.find(": "); if (p != std::string::npos) pieces.push_back(msg.substr(p + 2)); }
+    else if (kind == "unsupported") delimited(msg, '"', '"', pieces);
+    else delimited(msg, '<', '>', pieces);
+    std::string o = "[";
+    for (size_t i = 0; i < pieces.size(); i++) {
+        std::string bytes;
+        o += i ? "," : "";
+        o += (kind == "bineq" && hexdump_bytes(pieces[i], bytes)) ? codes(bytes) : codes(pieces[i]);
+    }
     return o + "]";
 }
 static bool all_printable(const std::string& s)
@@ -119,21 +172,23 @@ int main(int argc, char** argv)
             BinaryEqualFailure fl(&shell, "file.cpp", 2, be, ba, e.size(), "");
             msg = fl.getMessage().asCharString();
             free(be); free(ba);
-        } else { fprintf(out, "{\"op\":\"harness-error\",\"what\":\"unknown kind\"}\n"); break; }
+        }
+        else if (kind == "equals") { EqualsFailure fl(&shell, "file.cpp", 2, ce, ca, ""); msg = fl.getMessage().asCharString(); }
+        else if (kind == "contains") { ContainsFailure fl(&shell, "file.cpp", 2, SimpleString(ce), SimpleString(ca), ""); msg = fl.getMessage().asCharString(); }
+        else if (kind == "unsupported") { FeatureUnsupportedFailure fl(&shell, "file.cpp", 2, SimpleString(ce), ""); msg = fl.getMessage().asCharString(); }
+#if CPPUTEST_HAVE_EXCEPTIONS && CPPUTEST_USE_STD_CPP_LIB
+        else if (kind == "exception") { std::runtime_error ex(e); UnexpectedExceptionFailure fl(&shell, ex); msg = fl.getMessage().asCharString(); }
+#endif
+        else { fprintf(out, "{\"op\":\"harness-error\",\"what\":\"unknown kind\"}\n"); break; }
         free(ce); free(ca);
 
         long pos = 0; bool haspos = false;
         size_t p = msg.find("difference starts at position ");
         if (p != std::string::npos) { haspos = true; pos = atol(msg.c_str() + p + strlen("difference starts at position ")); }
-        bool has_e = true, has_a = true;
-        if (kind != "bineq") {
-            if (!enull && all_printable(e)) has_e = msg.find("<" + e + ">") != std::string::npos;
-            if (!anull && all_printable(a)) has_a = msg.find("<" + a + ">") != std::string::npos;
-        }
         bool raw = msg.find('\x01') != std::string::npos;
-        fprintf(out, "{\"op\":%s,\"e\":%s,\"a\":%s,\"enull\":%s,\"anull\":%s,\"haspos\":%s,\"pos\":%ld,\"has_e\":%s,\"has_a\":%s,\"raw\":%s,\"msglen\":%lu}\n",
+        fprintf(out, "{\"op\":%s,\"e\":%s,\"a\":%s,\"enull\":%s,\"anull\":%s,\"haspos\":%s,\"pos\":%ld,\"f\":%s,\"raw\":%s,\"msglen\":%lu}\n",
                 vh_jstr(kind).c_str(), codes(e).c_str(), codes(a).c_str(), enull ? "true" : "false", anull ? "true" : "false",
-                haspos ? "true" : "false", pos, has_e ? "true" : "false", has_a ? "true" : "false", raw ? "true" : "false", (unsigned long) msg.size());
+                haspos ? "true" : "false", pos, fields_json(kind, msg).c_str(), raw ? "true" : "false", (unsigned long) msg.size());
     }
     fflush(out);
     fclose(out);
